@@ -1046,6 +1046,29 @@ fn main() {
                     let mut sub = Sub(&assoc);
                     sub.visit_impl_item_fn_mut(&mut f);
                 }
+                // side-car `opt=repath=<a::b>=<c>`: a leading module path in the signature is re-rooted at a prelude module (N25b)
+                for o in &d.opts {
+                    if let Some(v) = o.strip_prefix("repath=") {
+                        if let Some((from, to)) = v.split_once('=') {
+                            let from: Vec<String> = from.split("::").map(|x| x.to_string()).collect();
+                            struct Rp<'a> { from: &'a Vec<String>, to: &'a str, k: usize }
+                            impl<'a> VisitMut for Rp<'a> {
+                                fn visit_path_mut(&mut self, p: &mut syn::Path) {
+                                    if p.segments.len() > self.from.len() && self.from.iter().enumerate().all(|(i, s)| p.segments[i].ident == s) {
+                                        let rest: Vec<syn::PathSegment> = p.segments.iter().skip(self.from.len()).cloned().collect();
+                                        let mut np: syn::Path = syn::parse_str(self.to).unwrap();
+                                        for r in rest { np.segments.push(r); }
+                                        *p = np; self.k += 1;
+                                    }
+                                    syn::visit_mut::visit_path_mut(self, p);
+                                }
+                            }
+                            let mut rp = Rp { from: &from, to, k: 0 };
+                            rp.visit_signature_mut(&mut f.sig);
+                            if rp.k > 0 { n.rules.push(norm::RuleApp { rule: "N25".into(), line: sp.0, note: format!("{} signature path(s) {} re-rooted at {}", rp.k, from.join("::"), to) }); }
+                        }
+                    }
+                }
                 if d.opts.iter().any(|o| o == "private") { f.vis = syn::Visibility::Inherited; }
                 if d.opts.iter().any(|o| o == "contract-only") {
                     // the signature is /repo's, the body is NOT verified: the side-car contract is an assumption (listed in the report)
